@@ -302,7 +302,7 @@ def desugar_for_ranges(b, ordinals, g, where):
                                "new": (new_head + "{" + body_intro).strip(),
                                "why": "for over `str::chars()` (no Verus support for the Chars iterator) -> index/while loop over the character vector (assumed: the string's characters in order)"})
             continue
-        if split is None and re.match(r"^&(mut\s+)?[A-Za-z_][A-Za-z0-9_.]*$", rng):
+        if split is None and re.match(r"^&(mut\s+)?\*?[A-Za-z_][A-Za-z0-9_.]*$", rng):
             # R21: `for x in &mut VEC { BODY }` => `{ let mut verif_next_K: usize = 0; while verif_next_K < VEC.len()
             # { let x = &mut VEC[verif_next_K]; verif_next_K += 1; BODY } }`  (slice::IterMut visits the elements
             # in index order; BODY cannot mention VEC in the original, so its length is the same in every iteration)
